@@ -8,11 +8,13 @@ about the updated top frame.
 -/
 namespace Dispenso.Sched
 
-/-- strict obligation: the frame holds a task of `S` whose package wrapper passed the cancel guard -/
-def ObS (f : Frame) (S : Nat) : Prop := f.pend = .guarded S ∨ f.pend = .inlGuarded S
-/-- weak obligation: the call passed a cancel check of its set `S` (and possibly decided to run a
-task unpackaged on the caller) -/
-def ObW (f : Frame) (S : Nat) : Prop := (f.guardOK = true ∧ f.set = S) ∨ (f.pend = .inlTs ∧ f.set = S)
+/-- obligation: the frame holds a passed cancel check of set `S` that no body has consumed yet —
+the package wrapper of a taken / pool-inlined task passed the guard (`guarded`, `inlGuarded`), the
+call passed a cancel check of its set (`guardOK`), or it decided after such a check to run the
+reserved task unpackaged on the caller (`inlTs`).  Every `begin_` of the frame consumes it. -/
+def Ob (f : Frame) (S : Nat) : Prop :=
+  f.pend = .guarded S ∨ f.pend = .inlGuarded S ∨ (f.pend = .inlTs ∧ f.set = S) ∨
+    (f.guardOK = true ∧ f.set = S)
 /-- the event is a cancel check of `S` that read "not cancelled", accepted while `S` is not cancelled -/
 def Fresh (s : St) (e : Ev) (S : Nat) : Prop := ∃ site, e = .tsGuard S false site ∧ S ∉ s.cancelled
 
@@ -24,11 +26,10 @@ inductive Shape (s : St) (t : Nat) (f0 : Frame) (rest : List Frame) (e : Ev) (s'
   | top (f0' : Frame) (h : s'.thr = upd s.thr t (f0' :: rest)) (hb : ∀ id, e ≠ .begin_ id)
       (hset : f0'.set = f0.set)
       (hfq : f0'.fq = f0.fq ∨ (e = .inline0 ∧ (s.nThreads = 0 ∨ s.resizing = true)))
-      (hS : ∀ S, ObS f0' S → ObS f0 S ∨ Fresh s e S)
-      (hW : ∀ S, ObW f0' S → ObW f0 S ∨ Fresh s e S)
+      (hO : ∀ S, Ob f0' S → Ob f0 S ∨ Fresh s e S)
   | begin (F f0' : Frame) (id : Nat) (he : e = .begin_ id)
       (h : s'.thr = upd s.thr t (F :: f0' :: rest)) (hF : F.pend = .none ∧ F.guardOK = false)
-      (hp : f0'.pend = .none) (hg : f0'.guardOK = f0.guardOK) (hset : f0'.set = f0.set)
+      (hp : f0'.pend = .none) (hg : f0'.guardOK = false) (hset : f0'.set = f0.set)
       (hfq : f0'.fq = f0.fq)
   | endPk (g : Frame) (rest' : List Frame) (g' : Frame) (hr : rest = g :: rest')
       (h : s'.thr = upd s.thr t (g' :: rest')) (hk : f0.kind ≠ .base) (hb : ∀ id, e ≠ .begin_ id)
@@ -57,45 +58,41 @@ theorem Step.shape {s s' : St} {t : Nat} {f0 : Frame} {rest : List Frame} {e : E
   case endPkCons g rest' hk _ _ _ hr _ =>
     exact Shape.endPk g rest' _ hr rfl (by simp [hk]) (fun _ h => by cases h) rfl rfl rfl rfl
   case inline0 hk hp hn =>
-    refine Shape.top _ rfl (fun _ h => by cases h) rfl (Or.inr ⟨rfl, hn⟩) ?_ ?_ <;> intro S
-    · simp [ObS]
-    · simp only [ObW, hp, reduceCtorEq, false_and, or_false]
-      exact Or.inl
+    refine Shape.top _ rfl (fun _ h => by cases h) rfl (Or.inr ⟨rfl, hn⟩) ?_
+    intro S
+    simp only [Ob, reduceCtorEq, false_and, false_or]
+    exact fun h => Or.inl (Or.inr (Or.inr (Or.inr h)))
   case guardTookPass set hc hp h0 hq hpd =>
-    refine Shape.top _ rfl (fun _ h => by cases h) rfl (Or.inl rfl) ?_ ?_ <;> intro S
-    · intro h
-      simp only [ObS, Pend.guarded.injEq, reduceCtorEq, or_false] at h
-      subst h
+    refine Shape.top _ rfl (fun _ h => by cases h) rfl (Or.inl rfl) ?_
+    intro S h
+    simp only [Ob, Pend.guarded.injEq, reduceCtorEq, false_and, false_or] at h
+    rcases h with h | h
+    · subst h
       exact Or.inr ⟨0, rfl, hc⟩
-    · simp only [ObW, hp, reduceCtorEq, false_and, or_false]
-      exact Or.inl
+    · exact Or.inl (Or.inr (Or.inr (Or.inr h)))
   case guardInlPass set id0 hc hp hr h0 htc hpd =>
-    refine Shape.top _ rfl (fun _ h => by cases h) rfl (Or.inl rfl) ?_ ?_ <;> intro S
-    · intro h
-      simp only [ObS, Pend.inlGuarded.injEq, reduceCtorEq, false_or] at h
-      subst h
+    refine Shape.top _ rfl (fun _ h => by cases h) rfl (Or.inl rfl) ?_
+    intro S h
+    simp only [Ob, Pend.inlGuarded.injEq, reduceCtorEq, false_and, false_or] at h
+    rcases h with h | h
+    · subst h
       exact Or.inr ⟨0, rfl, hc⟩
-    · simp only [ObW, hp, reduceCtorEq, false_and, or_false]
-      exact Or.inl
+    · exact Or.inl (Or.inr (Or.inr (Or.inr h)))
   case guardOk set site hc hs0 hk hset h0 hp =>
-    refine Shape.top _ rfl (fun _ h => by cases h) rfl (Or.inl rfl) ?_ ?_ <;> intro S
-    · simp [ObS, hp]
-    · intro h
-      simp only [ObW, hp, reduceCtorEq, false_and, or_false, true_and] at h
-      rw [hset] at h
-      subst h
-      exact Or.inr ⟨site, rfl, hc⟩
+    refine Shape.top _ rfl (fun _ h => by cases h) rfl (Or.inl rfl) ?_
+    intro S h
+    simp only [Ob, hp, reduceCtorEq, false_and, false_or, true_and] at h
+    rw [hset] at h
+    subst h
+    exact Or.inr ⟨site, rfl, hc⟩
   case tsInline set hk hset h0 hp hg hfq =>
-    refine Shape.top _ rfl (fun _ h => by cases h) rfl (Or.inl rfl) ?_ ?_ <;> intro S
-    · simp [ObS]
-    · intro h
-      have : f0.set = S := by
-        simp only [ObW] at h
-        rcases h with h | h <;> exact h.2
-      exact Or.inl (Or.inl ⟨hg, this⟩)
+    refine Shape.top _ rfl (fun _ h => by cases h) rfl (Or.inl rfl) ?_
+    intro S h
+    simp only [Ob, reduceCtorEq, false_and, false_or, or_false, true_and] at h
+    exact Or.inl (Or.inr (Or.inr (Or.inr ⟨hg, h⟩)))
   all_goals
-    refine Shape.top _ rfl (fun _ h => by cases h) rfl (Or.inl rfl) ?_ ?_ <;> intro S <;>
-      simp_all [ObS, ObW, placed]
+    refine Shape.top _ rfl (fun _ h => by cases h) rfl (Or.inl rfl) ?_ <;> intro S <;>
+      simp_all [Ob, placed]
 
 
 theorem Shape.thr_other {s s' : St} {t : Nat} {f0 : Frame} {rest : List Frame} {e : Ev}
